@@ -455,7 +455,25 @@ fn main() {
     // enlarged alphabet (one symbol per variant of every non-database family) for plans up to `ext_p` targets, the
     // 64-symbol alphabet up to `full_p`, the 14-class alphabet for longer plans
     let syms_ext = retrysym::extended_alphabet();
-    let syms_full = retrysym::alphabet();
+    let syms_full = {
+        // the 64-symbol alphabet + one representative of every field-combination family the enlarged alphabet adds
+        let mut v = retrysym::alphabet();
+        for name in [
+            "RateLimitReached(Read,rejected_by_coordinator=false)",
+            "RateLimitReached(Write,rejected_by_coordinator=false)",
+            "RateLimitReached(Other(7),rejected_by_coordinator=true)",
+            "BrokenConnection:WriteError(BrokenPipe)",
+            "BrokenConnection:KeepaliveTimeout",
+            "Unavailable(body_cl=SERIAL,alive=1)",
+            "WriteTimeout(body_cl=SERIAL,BATCH_LOG,received=0)",
+            "WriteFailure(BATCH_LOG,received=0,numfailures=1)",
+            "Other(0x1000)",
+        ] {
+            let s = syms_ext.iter().find(|s| s.name == name).unwrap_or_else(|| vcore::machinery_error(&format!("symbol {name} missing")));
+            v.push(Sym { name: s.name.clone(), class: s.class, err: s.err.clone() });
+        }
+        v
+    };
     let syms_class = retrysym::class_alphabet();
     let syms = retrysym::extended_alphabet();
     let n_pool = retrysym::pool_errors().len();
@@ -466,7 +484,7 @@ fn main() {
     let thorough = r.tier().is_thorough();
     let max_p = r.args.extra_value("--max-p").and_then(|s| s.parse().ok()).unwrap_or(r.tier().pick(4usize, 5usize));
     let full_p = r.args.extra_value("--full-p").and_then(|s| s.parse().ok()).unwrap_or(r.tier().pick(2usize, 4usize));
-    let ext_p = r.args.extra_value("--ext-p").and_then(|s| s.parse().ok()).unwrap_or(r.tier().pick(2usize, 3usize));
+    let ext_p = r.args.extra_value("--ext-p").and_then(|s| s.parse().ok()).unwrap_or(r.tier().pick(1usize, 2usize));
     let cls: Vec<Cl> = if thorough { Cl::ALL.to_vec() } else { vec![Cl::Quorum, Cl::EachQuorum, Cl::One, Cl::LocalSerial] };
     let mut items = Vec::new();
     for mode in [Mode::Real(Policy::Default), Mode::Real(Policy::Downgrading), Mode::Real(Policy::Fallthrough), Mode::Scripted] {
